@@ -62,6 +62,7 @@ class Tracked:
 class SModel(KModel):
     def __init__(self, scn):
         super().__init__(scn)
+        self.assume_asserts = True      # no rule built on this model claims panic freedom of assertions
         self.n = Rat.const(scn['n']) if scn.get('n') is not None else Rat.atom('n')
         self.arrays = []
         self.thomas_calls = []
@@ -186,6 +187,12 @@ class SModel(KModel):
             return a0
         if name == 'std::iter::Iterator::rev' and isinstance(a0, Enum) and a0.adt == 'std::ops::Range':
             return Obj('revrange', range=a0)
+        if name == 'std::iter::Iterator::zip' and isinstance(a0, Obj) and a0.kind == 'rowiter':
+            b = deref_all(args[1])
+            if isinstance(b, Obj) and b.kind == 'rowiter':
+                return Obj('rowiter', tree=('zip', a0.d['tree'], b.d['tree']))
+        if name == 'std::iter::Iterator::enumerate' and isinstance(a0, Obj) and a0.kind == 'rowiter':
+            return Obj('rowiter', tree=('enum', a0.d['tree']))
         if name == 'std::clone::Clone::clone' and isinstance(a0, Obj):
             if a0.kind == 'ddim':
                 return Obj('ddim', n=a0.d['n'])
@@ -203,8 +210,10 @@ class SModel(KModel):
                 return self.elementwise(op, deref_all(args[0]), deref_all(args[1]), e)
         if last == 'from' and name.startswith('ndarray::Zip'):
             return Obj('zip', parts=[a0])
+        if last == 'indexed' and name.startswith('ndarray::Zip'):
+            return Obj('zip', parts=[a0], indexed=True)
         if last == 'and' and isinstance(a0, Obj) and a0.kind == 'zip':
-            return Obj('zip', parts=a0.d['parts'] + [deref_all(args[1])])
+            return Obj('zip', parts=a0.d['parts'] + [deref_all(args[1])], indexed=a0.d.get('indexed', False))
         if isinstance(a0, Obj) and a0.kind == 'ddim':
             if last in ('clone',):
                 return Obj('ddim', n=a0.d['n'])
@@ -307,12 +316,20 @@ class SModel(KModel):
             if v is None:
                 raise Unsupported("read of row %s of %s: not known which write reaches it" % (idx_name(i), t.name), e)
             return self.lanes(v)
+        if last in ('axis_iter', 'axis_iter_mut', 'outer_iter', 'outer_iter_mut'):
+            if last.startswith('axis_iter') and not is_axis0(args[1]):
+                raise Unsupported("axis_iter over an axis other than Axis(0) of a lane array", e)
+            return Obj('rowiter', tree=('rows', a, last.endswith('_mut')))
         if last == 'index_axis_mut':
             if not is_axis0(args[1]):
                 raise Unsupported("index_axis_mut on an axis other than Axis(0) of a lane array", e)
             return Obj('rowmut', a=a, i=deref_all(args[2]).r + a.d['lo'])
         if last in ('view_mut', 'view', 'into_dyn'):
             return a
+        if last == 'len_of':
+            if not is_axis0(args[1]):
+                raise Unsupported("len_of an axis other than Axis(0) of a lane array", e)
+            return Num(a.d['hi'] - a.d['lo'])
         if last == 'raw_dim':
             return Obj('ddim', n=a.d['hi'] - a.d['lo'])
         if last == 'ndim':
@@ -328,6 +345,13 @@ class SModel(KModel):
                 raise Unsupported("slice_axis on another axis", e)
             lo, hi = self.slice_bounds(deref_all(args[2]), a.d['hi'] - a.d['lo'], e)
             return Obj('arr2', t=t, lo=a.d['lo'] + lo, hi=a.d['lo'] + hi)
+        if last == 'split_at':
+            if not is_axis0(args[1]):
+                raise Unsupported("split_at on an axis other than Axis(0) of a lane array", e)
+            at = deref_all(args[2])
+            if not isinstance(at, Num):
+                raise Unsupported("split_at at %r" % (at,), e)
+            return Tup([Obj('arr2', t=t, lo=a.d['lo'], hi=a.d['lo'] + at.r), Obj('arr2', t=t, lo=a.d['lo'] + at.r, hi=a.d['hi'])])
         if last in ('to_owned', 'into_owned', 'clone'):
             t2 = Tracked(t.name + "'", t.length, t.sym)
             t2.store = dict(t.store)
@@ -422,10 +446,12 @@ class SModel(KModel):
         parts = z.d['parts']
         # interior fill: 1-D slices zipped with windows(k) of an axis -> one generic position i
         if any(isinstance(p, Obj) and p.kind == 'windows' for p in parts):
-            return self.zip_windows(parts, clo, e)
+            return self.zip_windows(parts, clo, e, indexed=z.d.get('indexed', False))
+        if z.d.get('indexed'):
+            raise Unsupported("Zip::indexed over operands other than (slices / rows, windows of the axis)", e)
         return super().zip_for_each(z, clo, e)
 
-    def zip_windows(self, parts, clo, e):
+    def zip_windows(self, parts, clo, e, indexed=False):
         self.loop_vars += 1
         var = 'i%d' % self.loop_vars if self.loop_vars > 1 else 'i'
         i = Rat.atom(var)
@@ -449,6 +475,20 @@ class SModel(KModel):
                     return Num(cell['v'] if cell['v'] is not None else Rat.const(0))
                 args.append(Ref(FnPlace(getter, setter, t.name + '[' + var + ']'), mut=True))
                 pending.append((t, cell))
+            elif p.kind == 'rowiter' and p.d['tree'][0] == 'rows':
+                # the rows lo..hi of a lane array, one per window: row j of the iterator is array row lo + j = i
+                a_, mut_ = p.d['tree'][1], p.d['tree'][2]
+                if lo is None:
+                    lo, hi = a_.d['lo'], a_.d['hi'] - 1
+                elif not (a_.d['lo'] == lo and a_.d['hi'] - 1 == hi):
+                    raise Unsupported("zipped slices cover different index ranges", e)
+                if mut_:
+                    args.append(Obj('rowmut', a=a_, i=i))
+                else:
+                    rv = a_.d['t'].read(i)
+                    if rv is None:
+                        raise Unsupported("read of row %s of %s: not known which write reaches it" % (var, a_.d['t'].name), e)
+                    args.append(self.lanes(rv))
             elif p.kind == 'windows':
                 args.append(('window', p))
             else:
@@ -464,18 +504,76 @@ class SModel(KModel):
         wsize = [p.d['size'] for p in parts if p.kind == 'windows'][0]
         self.window_alignment = {'slice_lo': lo, 'slice_hi': hi, 'var': var, 'window': wsize,
                                  'n_slice': hi - lo + 1, 'n_windows': self.len_of_axis() - wsize + 1}
+        if indexed:
+            final = [Num(i - lo)] + final           # Zip::indexed: the position within the zipped producers
+        snapshot = [(t, dict(t.store)) for t in self.arrays]
         self.interp.apply(clo, final, e)
         for t, cell in pending:
             if cell['v'] is not None:
                 t.write_generic(var, lo, hi, cell['v'], 'zip-windows ' + line_of(e))
+        # rows written at the generic position
+        for t, before in snapshot:
+            for k, (idx, val) in list(t.store.items()):
+                if (k not in before or before[k][1] is not val) and var in idx.atoms():
+                    del t.store[k]
+                    if k in before:
+                        t.store[k] = before[k]
+                    if str(idx) != var:
+                        raise Unsupported("row %s written from window position %s" % (idx_name(idx), var), e)
+                    t.write_generic(var, lo, hi, val, 'zip-windows rows ' + line_of(e))
+                    t.generic[-1]['idx'] = idx
         return Unit()
 
     def len_of_axis(self):
         return self.n
 
     # ------------------------------------------------------------------ loops: one inductive step
+    def _rowiter_elem(self, tree, j, lens, e):
+        kind = tree[0]
+        if kind == 'rows':
+            a, mut = tree[1], tree[2]
+            lens.append(a.d['hi'] - a.d['lo'])
+            if mut:
+                return Obj('rowmut', a=a, i=j + a.d['lo'])
+            v = self.arr2_row(a, j)
+            if v is None:
+                raise Unsupported("read of row %s of %s: not known which write reaches it" % (idx_name(j), a.d['t'].name), e)
+            return self.lanes(v)
+        if kind == 'zip':
+            return Tup([self._rowiter_elem(tree[1], j, lens, e), self._rowiter_elem(tree[2], j, lens, e)])
+        if kind == 'enum':
+            return Tup([Num(j), self._rowiter_elem(tree[1], j, lens, e)])
+        raise Unsupported("iterator adaptor %r" % (kind,), e)
+
     def for_loop(self, iterable, pat, body, frame, e):
         it = deref_all(iterable)
+        if isinstance(it, Obj) and it.kind == 'rowiter':
+            # a loop over the rows of one or several lane arrays (std iterator adaptors): one inductive step with symbolic row j
+            self.loop_vars += 1
+            var = 'j%d' % self.loop_vars
+            j = Rat.atom(var)
+            lens = []
+            elem = self._rowiter_elem(it.d['tree'], j, lens, e)
+            if any(not (l == lens[0]) for l in lens):
+                raise Unsupported("std Iterator::zip over row iterators of different lengths %s truncates silently" % [str(l) for l in lens], e)
+            if not self.interp.match_pat(pat, ValPlace(elem), frame):
+                raise Unsupported("loop pattern over rows", e)
+            start, end = Rat.const(0), lens[0]
+            snapshot = [(t, dict(t.store)) for t in self.arrays]
+            self.cur_loop = {'var': var, 'lo': start, 'hi': end - 1, 'rev': False, 'where': line_of(e)}
+            self.loops = getattr(self, 'loops', []) + [self.cur_loop]
+            self.interp.eval(body, frame)
+            for t, before in snapshot:
+                for k, (idx, val) in list(t.store.items()):
+                    if k not in before or before[k][1] is not val:
+                        if var in idx.atoms():
+                            del t.store[k]
+                            if k in before:
+                                t.store[k] = before[k]
+                            t.write_generic(var, start, end - 1, val, 'loop ' + line_of(e))
+                            t.generic[-1]['idx'] = idx
+            self.cur_loop = None
+            return Unit()
         rev = False
         if isinstance(it, Obj) and it.kind == 'revrange':
             it = it.d['range']
